@@ -478,8 +478,13 @@ hwloc_calc_append_object_range(struct hwloc_calc_location_context_s *lcontext,
   }
 
   width = hwloc_calc_get_nbobjs_inside_sets_by_depth(lcontext, rootcpuset, rootnodeset, level);
-  if (amount == -1)
-    amount = (width-first+step-1)/step;
+  if (amount == -1) {
+    if ((unsigned) first >= width)
+      /* open-ended range starting after the last object, nothing to use */
+      amount = 0;
+    else
+      amount = (width-first+step-1)/step;
+  }
 
   for(i=first, j=0; j<(unsigned)amount; i+=step, j++) {
     if (wrap && i>=width)
